@@ -15,7 +15,11 @@ import (
 	"verifharness/fw"
 	"verifharness/lab"
 
+	sdk "github.com/cosmos/cosmos-sdk/types"
+
+	beacontypes "github.com/unification-com/mainchain/x/beacon/types"
 	enttypes "github.com/unification-com/mainchain/x/enterprise/types"
+	wrkchaintypes "github.com/unification-com/mainchain/x/wrkchain/types"
 )
 
 // C15: genesis export and import are lossless.
@@ -26,9 +30,9 @@ func init() {
 		Rule: "each case: a rich mixed history (orders caught raised and - in 40% of the cases deliberately - in their one-block accepted state, partially spent eFUND, pruned registrations, expired/active/drained streams in 3 denominations, governance parameter changes) is exported with the real ExportAppStateAndValidators (both forZeroHeight modes) and a FRESH application with default options (crisis asserts every invariant inside InitChain) is initialised from the export. Rules: export and InitChain succeed; every registered invariant holds; the full custom-module observation (every order, queues, whitelist, locked/spent books, totals, registrations, limits, retained records, streams, parameters) is equal on both chains; exporting again yields identical enterprise/wrkchain/beacon/stream documents; the same 12-20 block continuation (identical signed tx bytes) has identical per-tx result codes and custom-module observations on both chains after every block. The race tier repeats cases inside the -race binary (module exporters run concurrently). distinct = state features present at export (raised/accepted orders, locked/spent, pruned, streams active/expired/drained, zero-height)",
 		Cases: func(tier string) int {
 			if tier == "thorough" {
-				return 1500
+				return 1500 + 1
 			}
-			return 64
+			return 64 + 1 // the last case is the export-cap case (> 20 000 retained records)
 		},
 		RaceCases: func(tier string) int {
 			if tier == "thorough" {
@@ -86,7 +90,123 @@ func diffViews(a, b map[string]interface{}) []string {
 	return out
 }
 
+func c15Cases(tier string) int {
+	if tier == "thorough" {
+		return 1500
+	}
+	return 64
+}
+
+// c15CapCase: one BEACON and one WRKChain hold more than the 20 000 records the export keeps.
+func c15CapCase(c *fw.Ctx) {
+	o := lab.DefaultOptions()
+	o.NAccts = 3
+	o.Wrk = wrkchaintypes.NewParams(10, 1, 1, lab.Denom, 25000, 30000)
+	o.Beacon = beacontypes.NewParams(10, 1, 1, lab.Denom, 25000, 30000)
+	o.Home = c.Scratch + "/home"
+	A := lab.New(dbm.NewMemDB(), o)
+	defer A.Cleanup()
+	a1 := A.Accts[1]
+	A.Begin(time.Second)
+	A.Tx(a1, lab.Nund(10), &wrkchaintypes.MsgRegisterWrkChain{Moniker: "cap", Name: "n", GenesisHash: "g", BaseType: "t", Owner: a1.Addr.String()})
+	A.Tx(a1, lab.Nund(10), &beacontypes.MsgRegisterBeacon{Moniker: "cap", Name: "n", Owner: a1.Addr.String()})
+	A.End()
+	const total = 20130
+	per := 90
+	for done := 0; done < total; {
+		A.Begin(time.Second)
+		for t := 0; t < 4 && done < total; t++ {
+			var mw, mb []sdk.Msg
+			for i := 0; i < per && done < total; i++ {
+				done++
+				mw = append(mw, &wrkchaintypes.MsgRecordWrkChainBlock{WrkchainId: 1, Height: uint64(done) * 3, BlockHash: fmt.Sprintf("h%d", done), Owner: a1.Addr.String()})
+				mb = append(mb, &beacontypes.MsgRecordBeaconTimestamp{BeaconId: 1, Hash: fmt.Sprintf("t%d", done), SubmitTime: uint64(1000 + done), Owner: a1.Addr.String()})
+			}
+			r1 := A.Deliver(A.MustBuild(lab.TxSpec{Msgs: mw, Signers: []lab.Acct{a1}, Fee: lab.Nund(int64(len(mw))), Gas: 90_000_000}))
+			r2 := A.Deliver(A.MustBuild(lab.TxSpec{Msgs: mb, Signers: []lab.Acct{a1}, Fee: lab.Nund(int64(len(mb))), Gas: 90_000_000}))
+			if r1.Code != 0 || r2.Code != 0 {
+				panic(fmt.Sprintf("cap case setup: record tx failed: %d %s / %d %s", r1.Code, firstN(r1.Log, 100), r2.Code, firstN(r2.Log, 100)))
+			}
+		}
+		A.End()
+	}
+	ex, err := A.App.ExportAppStateAndValidators(false, nil, nil)
+	if err != nil {
+		c.Violate("export-failed", "cap-case", "%v", err)
+		return
+	}
+	docs1, _ := customDocs(ex.AppState)
+	ob := lab.DefaultOptions()
+	ob.NAccts = 3
+	ob.Home = c.Scratch + "/homeB"
+	dbB := dbm.NewMemDB()
+	appB := lab.NewApp(dbB, ob)
+	if p := safeCall(func() {
+		appB.InitChain(abci.RequestInitChain{ChainId: lab.ChainID, Time: A.Time, ConsensusParams: ex.ConsensusParams, AppStateBytes: ex.AppState, InitialHeight: ex.Height})
+		appB.Commit()
+	}); p != nil {
+		c.Violate("import-failed", "cap-case", "InitChain from an export with > 20000 records panicked: %s", firstN(fmt.Sprint(p), 300))
+		return
+	}
+	c.Count("round_trips", 1)
+	c.Count("cap_case_records", total)
+	B := lab.Attach(appB, dbB, ob, appB.LastBlockHeight(), A.Time)
+	ctx := B.QueryCtx()
+	const keep = 20000
+	// BEACON: exactly the newest 20000, counters consistent with what is queryable
+	bts := appB.BeaconKeeper.GetAllBeaconTimestamps(ctx, 1)
+	b, _ := appB.BeaconKeeper.GetBeacon(ctx, 1)
+	if len(bts) != keep || bts[0].TimestampId != total-keep+1 || bts[len(bts)-1].TimestampId != total {
+		c.Violate("export-cap-retention", "beacon", "imported beacon holds %d timestamps [%d..%d], expected the newest %d [%d..%d]", len(bts), bts[0].TimestampId, bts[len(bts)-1].TimestampId, keep, total-keep+1, total)
+	}
+	for _, t := range []beacontypes.BeaconTimestamp{bts[0], bts[len(bts)/2], bts[len(bts)-1]} {
+		if t.Hash != fmt.Sprintf("t%d", t.TimestampId) || t.SubmitTime != uint64(1000+t.TimestampId) {
+			c.Violate("export-cap-content", "beacon", "imported timestamp %d has hash %q time %d", t.TimestampId, t.Hash, t.SubmitTime)
+		}
+	}
+	if b.NumInState != uint64(len(bts)) || b.FirstIdInState != bts[0].TimestampId || b.LastTimestampId != total {
+		c.Violate("export-cap-counters", "beacon", "imported beacon counters num=%d first=%d last=%d, queryable %d [%d..%d]", b.NumInState, b.FirstIdInState, b.LastTimestampId, len(bts), bts[0].TimestampId, bts[len(bts)-1].TimestampId)
+	}
+	// WRKChain
+	wbs := appB.WrkchainKeeper.GetAllWrkChainBlockHashes(ctx, 1)
+	w, _ := appB.WrkchainKeeper.GetWrkChain(ctx, 1)
+	if len(wbs) != keep || wbs[0].Height != uint64(total-keep+1)*3 || wbs[len(wbs)-1].Height != total*3 {
+		c.Violate("export-cap-retention", "wrkchain", "imported wrkchain holds %d blocks [%d..%d], expected the newest %d", len(wbs), wbs[0].Height, wbs[len(wbs)-1].Height, keep)
+	}
+	if w.NumBlocks != uint64(len(wbs)) || w.LowestHeight != wbs[0].Height || w.Lastblock != total*3 {
+		c.Violate("export-cap-counters", "wrkchain", "imported wrkchain counters num=%d lowest=%d last=%d, queryable %d [%d..%d]", w.NumBlocks, w.LowestHeight, w.Lastblock, len(wbs), wbs[0].Height, wbs[len(wbs)-1].Height)
+	}
+	for _, inv := range B.Invariants(ctx) {
+		c.Violate("imported-chain-breaks-invariant", invName(inv), "%s", firstN(inv, 200))
+	}
+	ex2, err := appB.ExportAppStateAndValidators(false, nil, nil)
+	if err != nil {
+		c.Violate("export-failed", "cap-case-second", "%v", err)
+		return
+	}
+	docs2, _ := customDocs(ex2.AppState)
+	for _, m := range customModules {
+		if docs1[m] != docs2[m] {
+			c.Violate("re-export-differs", m+"/cap-case", "%s document differs between first export and export of the imported chain (%d vs %d bytes)", m, len(docs1[m]), len(docs2[m]))
+		}
+	}
+	// the imported chain keeps working: one more record prunes/extends consistently
+	B.Begin(time.Second)
+	rr := B.Tx(a1, lab.Nund(1), &beacontypes.MsgRecordBeaconTimestamp{BeaconId: 1, Hash: "after", SubmitTime: 7, Owner: a1.Addr.String()})
+	B.End()
+	b2, _ := appB.BeaconKeeper.GetBeacon(B.QueryCtx(), 1)
+	if rr.Code != 0 || b2.LastTimestampId != total+1 || b2.NumInState != keep+1 {
+		c.Violate("export-cap-continuation", "beacon", "record after import: code %d, last id %d, in state %d (expected %d / %d)", rr.Code, b2.LastTimestampId, b2.NumInState, total+1, keep+1)
+	}
+	c.Distinct("export-cap/20130-records")
+	c.Nontrivial()
+}
+
 func runC15(c *fw.Ctx) {
+	if !c.Race && c.Case == c15Cases(c.Tier) {
+		c15CapCase(c)
+		return
+	}
 	r := c.Rng
 	o := RandOptions(r)
 	o.Ent.MinAccepts = 1
